@@ -35,13 +35,37 @@ def snapshot_fields(command_set):
     return out
 
 
+LIVE = []        # worlds that have not been closed (normally at most one)
+
+
+def close_leftovers():
+    """Close whatever a run_case() that raised half-way left behind (used by the runner around
+    speculative runs such as shrink candidates, whose parameters may be out of a workload's
+    range)."""
+    import sys
+    import threading
+    for w in list(LIVE):
+        try:
+            w.close()
+        except BaseException:  # pylint: disable=broad-except
+            pass
+    del LIVE[:]
+    seams.uninstall()
+    threading.settrace(None)
+    sys.settrace(None)
+
+
 class SimWorld(object):
     def __init__(self, seed, with_fs=False, delivery='random', policy='random', trace=None,
                  latency=0.0):
         self.sim = sched.Sim(seed, trace, policy=policy)
         gc.disable()
         self.fs = simfs.SimFS(self.sim) if with_fs else None
+        self.closed = False
+        self._orig_send = None
+        self.aes = []
         self.w = seams.install(self.sim, self.fs)
+        LIVE.append(self)
         self.net = self.w.net
         self.net.delivery_mode = delivery
         self.net.latency = latency
@@ -150,6 +174,8 @@ class SimWorld(object):
                         pass
             seams.uninstall()
             gc.enable()
+            if self in LIVE:
+                LIVE.remove(self)
 
     def __enter__(self):
         return self
